@@ -511,6 +511,10 @@ retry_peek:
 		hdr = (struct qb_ipc_request_header *)msg;
 		to_recv = hdr->size;
 	}
+	if (to_recv < 0 || to_recv > len) {
+		/* whatever the sender claims, that's all the room there is */
+		to_recv = len;
+	}
 
 	result = recv(one_way->u.us.sock, data, to_recv,
 		      MSG_NOSIGNAL | MSG_WAITALL);
